@@ -99,8 +99,11 @@ Atom(n, m) == CASE n = "minimization_successful" -> m.ms
 RECURSIVE EvalS(_, _)
 EvalS(e, m) == CASE e.op = "empty" -> TRUE
                  [] e.op = "atom" -> Atom(e.name, m)
-                 [] e.op = "cmp" -> IF e.name = "sigdigs" THEN Rel(m.sd, e.rel, e.val)
-                                    ELSE \A i \in 1..Len(m.rse) : Rel(m.rse[i], e.rel, e.val)   \* every parameter
+                 \* sigdigs < 0 encodes NaN (a run that produced no significant digits): NaN satisfies no comparison,
+                 \* only `!=`; a multi-valued attribute (rse) satisfies a comparison when EVERY element does
+                 [] e.op = "cmp" -> IF e.name = "sigdigs"
+                                    THEN (IF m.sd < 0 THEN e.rel = "!=" ELSE Rel(m.sd, e.rel, e.val))
+                                    ELSE \A i \in 1..Len(m.rse) : Rel(m.rse[i], e.rel, e.val)
                  [] e.op = "not" -> ~EvalS(e.x, m)
                  [] e.op = "and" -> EvalS(e.l, m) /\ EvalS(e.r, m)
                  [] e.op = "or" -> EvalS(e.l, m) \/ EvalS(e.r, m)
